@@ -77,7 +77,7 @@ func (c *Ctx) lin(a D, ca float64, b D, cb float64, v float64) D {
 func (c *Ctx) Add(a, b D) D { return c.lin(a, 1, b, 1, a.V+b.V) }
 func (c *Ctx) Sub(a, b D) D { return c.lin(a, 1, b, -1, a.V-b.V) }
 func (c *Ctx) Mul(a, b D) D { return c.lin(a, b.V, b, a.V, a.V*b.V) }
-func (c *Ctx) Div(a, b D) D { return c.lin(a, 1/b.V, b, -a.V/(b.V*b.V), a.V/b.V) }
+func (c *Ctx) Div(a, b D) D { q := a.V / b.V; return c.lin(a, 1/b.V, b, -q/b.V, q) }
 func (c *Ctx) un(a D, v, dv float64) D {
 	return c.lin(a, dv, D{}, 0, v)
 }
